@@ -123,8 +123,10 @@ impl Driver for C04 {
                                 let truth = solve_milp(&xl.to_lp(), 50_000).map(|(a, _)| a.kind()).unwrap_or("undecided");
                                 let sig = if solver == "tableau" && spec.coefficient_range() == "wide" {
                                     "tableau-simplex-unreliable-on-wide-coefficient-range(spread>=50)".to_string()
-                                } else if solver == "clarabel" && truth != "optimal" && sol.values.iter().any(|v| v.abs() >= 1e6) {
-                                    "clarabel:astronomical-point-returned-as-optimal(|x|>=1e6;model-not-optimal)".to_string()
+                                } else if solver == "clarabel" && truth == "unbounded" {
+                                    "clarabel:solution-returned-for-unbounded-model".to_string()
+                                } else if solver == "clarabel" && truth == "infeasible" && sol.values.iter().any(|v| v.abs() >= 1e6) {
+                                    "clarabel:astronomical-point-returned-for-infeasible-model(|x|>=1e6)".to_string()
                                 } else if solver == "tableau" && class.starts_with("tolerance-level") {
                                     "tableau:tolerance-level-violation(1e-6..1e-3)".to_string()
                                 } else {
@@ -322,8 +324,10 @@ impl Driver for C05 {
                             if relaxed_kind(&lp, &tol) == Some("optimal") {
                                 out.inconclusive("verdict differs only within the 1e-6 tolerance band");
                             } else {
-                                let sig = if solver == "clarabel" && sol.values.iter().any(|v| v.abs() >= 1e6) {
-                                    "clarabel:astronomical-point-returned-as-optimal(|x|>=1e6;model-not-optimal)".to_string()
+                                let sig = if solver == "clarabel" && other.kind() == "unbounded" {
+                                    "clarabel:solution-returned-for-unbounded-model".to_string()
+                                } else if solver == "clarabel" && sol.values.iter().any(|v| v.abs() >= 1e6) {
+                                    "clarabel:astronomical-point-returned-for-infeasible-model(|x|>=1e6)".to_string()
                                 } else {
                                     format!("{solver}:solution-on-{}({pre})", other.kind())
                                 };
